@@ -30,6 +30,9 @@ type goPanic struct {
 	pos  token.Pos
 }
 
+// passThrough is returned by a conditional stub that is not active in this run.
+type passThrough struct{}
+
 type abortPath struct{ reason string } // infeasible / assumption false
 type exitPath struct{ code value }     // os.Exit
 type unwindExceeded struct{ where string }
@@ -44,6 +47,7 @@ type Engine struct {
 	Stubs       map[string]StubFn
 	Natives     map[string]interface{} // package-level native funcs / globals (reflect bridge)
 	Whitelist   map[string]bool        // library functions interpreted from their own SSA
+	WhitelistPkgs map[string]bool      // library packages whose unstubbed functions are interpreted
 	Trace       bool
 	MaxSteps    int
 	MaxForks    int
@@ -162,7 +166,20 @@ func (r *Run) global(g *ssa.Global) value {
 		if nv, ok := r.E.Natives[name]; ok {
 			return nativeV{reflectValueOf(nv)} // pointer to the native global
 		}
-		panic(unsupported("global of non-interpreted package: " + name))
+		var cell value
+		switch name {
+		case "os.Stderr":
+			cell = r.newToken("stderr", nil)
+		case "os.Stdout":
+			cell = r.newToken("stdout", nil)
+		case "flag.Usage", "flag.CommandLine", "os.Args":
+			cell = zero(mustDeref(g.Type()))
+		default:
+			panic(unsupported("global of non-interpreted package: " + name))
+		}
+		r.stubsHit["foreign-global:"+name] = true
+		r.globals[g] = &cell
+		return &cell
 	}
 	r.ensureInit(g.Pkg)
 	if p, ok := r.globals[g]; ok {
@@ -644,6 +661,11 @@ func visitInstr(fr *frame, instr ssa.Instruction) continuation {
 			}
 		case *Term:
 			fr.env[instr] = r.symStringIndex(fr, instr, x, asTerm(idx))
+		case runesV:
+			if !x.bytes {
+				panic(unsupported("indexing a rune vector"))
+			}
+			fr.env[instr] = byteTerm{x.cps[r.indexIn(fr, instr, idx, len(x.cps))]}.norm()
 		default:
 			panic(unsupported(fmt.Sprintf("Index on %T", x)))
 		}
@@ -778,8 +800,11 @@ func (r *Run) callSSA(caller *frame, callpos token.Pos, fn *ssa.Function, args [
 	name := fn.String()
 	fr := &frame{r: r, caller: caller, fn: fn, callpos: callpos}
 	if stub := r.E.Stubs[name]; stub != nil {
-		r.stubsHit[name] = true
-		return stub(r, fr, fn, args)
+		v := stub(r, fr, fn, args)
+		if _, pass := v.(passThrough); !pass {
+			r.stubsHit[name] = true
+			return v
+		}
 	}
 	if nf, ok := r.E.Natives[name]; ok && reflectValueOf(nf).Kind() == reflect.Func {
 		r.stubsHit["native:"+name] = true
@@ -792,7 +817,10 @@ func (r *Run) callSSA(caller *frame, callpos token.Pos, fn *ssa.Function, args [
 			interp = true
 		}
 	}
-	if !interp && r.E.Whitelist[name] {
+	if !interp && fn.Pkg != nil && fn.Name() == "init" && fn.Signature.Recv() == nil {
+		return nil // initialisers of library packages are not run (their globals are not modelled)
+	}
+	if !interp && (r.E.Whitelist[name] || (fn.Pkg != nil && r.E.WhitelistPkgs[fn.Pkg.Pkg.Path()])) {
 		if fn.Blocks == nil && fn.Pkg != nil {
 			fn.Pkg.Build()
 		}
@@ -943,6 +971,22 @@ func (e *Engine) ExecPath(s *Solver, harness *ssa.Function, prefix []int, mapOrd
 			case exitPath:
 				res.Outcome = "exit"
 				res.Detail = toString(p.code)
+				func() {
+					defer func() {
+						if q := recover(); q != nil {
+							if _, ok := q.(abortPath); ok {
+								res.Outcome = "infeasible"
+								return
+							}
+							panic(q)
+						}
+					}()
+					if want, ok := r.Env["expect-exit"]; ok {
+						r.assertCond("exit-status", r.eqv(types.Typ[types.Int], p.code, want), "os.Exit("+toString(p.code)+")")
+					} else {
+						r.assertCond("no-unexpected-exit", false, "os.Exit("+toString(p.code)+") reached")
+					}
+				}()
 			case unsupportedErr:
 				res.Outcome = "unsupported"
 				res.Detail = p.msg
